@@ -57,6 +57,22 @@ fn member_strategy(max_msgs: usize) -> BoxedStrategy<Member> {
         .boxed()
 }
 
+/// Members join through `add` or through the untyped `add_opaque` (the entry point the router
+/// and the async layer use): bits of the case's shuffle word choose "all typed", "all opaque" or
+/// "alternating", so sets consisting of opaque members only occur.
+fn add_member(set: &mut IpcReceiverSet, r: IpcReceiver<Node>, i: usize, shuffle: u64) -> Result<u64, std::io::Error> {
+    let opaque = match (shuffle >> 7) % 3 {
+        0 => false,
+        1 => true,
+        _ => i % 2 == 0,
+    };
+    if opaque {
+        set.add_opaque(r.to_opaque())
+    } else {
+        set.add(r)
+    }
+}
+
 fn msg_len(class: u8) -> usize {
     let (f1, f) = c01::capacities();
     match class {
@@ -297,7 +313,7 @@ fn regime_d(case: &Case) -> Result<Outcome, Failure> {
                 if sent[i] > 0 {
                     adds_after_traffic += 1;
                 }
-                let id = set.add(rxs[i].take().unwrap()).map_err(|e| Failure::new("set:add-failed", e.to_string()))?;
+                let id = add_member(&mut set, rxs[i].take().unwrap(), i, case.shuffle).map_err(|e| Failure::new("set:add-failed", e.to_string()))?;
                 oracle.added(i, id)?;
                 added[i] = true;
             },
@@ -382,7 +398,7 @@ fn regime_f(case: &Case) -> Result<Outcome, Failure> {
     let mut to_add: Vec<usize> = vec![];
     for (i, m) in case.members.iter().enumerate() {
         if m.add_after == 0 {
-            let id = set.add(rxs[i].take().unwrap()).map_err(|e| Failure::new("set:add-failed", e.to_string()))?;
+            let id = add_member(&mut set, rxs[i].take().unwrap(), i, case.shuffle).map_err(|e| Failure::new("set:add-failed", e.to_string()))?;
             oracle.added(i, id)?;
         } else {
             to_add.push(i);
@@ -433,7 +449,7 @@ fn regime_f(case: &Case) -> Result<Outcome, Failure> {
         if !to_add.is_empty() && (open_added == 0 || rounds % (1 + (case.shuffle % 4)) == 0) {
             let i = to_add.remove(0);
             adds_after_traffic += 1;
-            let id = set.add(rxs[i].take().unwrap()).map_err(|e| Failure::new("set:add-failed", e.to_string()))?;
+            let id = add_member(&mut set, rxs[i].take().unwrap(), i, case.shuffle).map_err(|e| Failure::new("set:add-failed", e.to_string()))?;
             oracle.added(i, id)?;
             continue;
         }
